@@ -243,9 +243,9 @@ class Language(object):
             fix: bool = True, unify: bool = True,
             defaults: bool = False) -> Expr:
 
-        comment = False
         previous_token = ""
-        tokens = tokenize(val, "*(,):;~#\n") if isinstance(val, str) else val
+        tokens = strip_comments(
+            tokenize(val, "*(,):;~#\n") if isinstance(val, str) else val)
         stack: list[Expr | None] = [None]
 
         # Give default Source expressions when argument expressions aren't 
@@ -259,13 +259,7 @@ class Language(object):
             args_map = list(args)
 
         while token := next(tokens, None):
-            if token == "#":
-                comment = True
-            elif token == "\n":
-                comment = False
-            elif comment:
-                pass
-            elif token in "(,)":
+            if token in "(,)":
                 if token in "),":
                     try:
                         y = stack.pop()
@@ -454,6 +448,20 @@ def tokenize(string: str, specials: str = "") -> Iterator[str]:
             yield "".join(tokens)
         elif group >= 0:
             yield from tokens
+
+
+def strip_comments(tokens: Iterator[str]) -> Iterator[str]:
+    """
+    Skip newlines and anything between a `#` and the end of its line.
+    """
+    comment = False
+    for token in tokens:
+        if token == "#":
+            comment = True
+        elif token == "\n":
+            comment = False
+        elif not comment:
+            yield token
 
 
 class LanguageNamespace(ClosedNamespace):
